@@ -90,6 +90,7 @@ RenameSet methodRenameDictionary[] = {
   { "operator ||"   , "logicalOr",              0 },
   { "operator +"    , "__add__",                0 },
   { "operator -"    , "__sub__",                0 },
+  { "operator +unary", "__pos__",               0 },
   { "operator -unary", "__neg__",               0 },
   { "operator *"    , "__mul__",                0 },
   { "operator /"    , "__div__",                0 },
@@ -318,6 +319,12 @@ get_slotted_function_def(Object *obj, Function *func, FunctionRemap *remap,
 
   string method_name = func->_ifunc.get_name();
   bool is_unary_op = func->_ifunc.is_unary_op();
+
+  if (method_name == "operator +" && is_unary_op) {
+    def._answer_location = "nb_positive";
+    def._wrapper_type = WT_no_params;
+    return true;
+  }
 
   if (method_name == "operator +" ||
       method_name == "__add__" ||
